@@ -36,13 +36,13 @@ OPTIONS = {
     "xlabel": (["line", "bar", "pithist", "igncontrib", "map"], st.sampled_from(["lead (h)", "X"])),
     "ylabel": (["line", "bar", "pithist", "igncontrib", "map"], st.sampled_from(["error (K)", "Y"])),
     "clabel": (["map"], st.sampled_from(["colour label", "C"])),
-    "xlim": (["line", "pithist"], st.sampled_from([[1.0, 30.0], [0.5, 100.0], [0.25, 0.75]])),
-    "ylim": (["line", "bar", "pithist"], st.sampled_from([[0.5, 5.0], [1.0, 20.0], [0.1, 3.5]])),
+    "xlim": (["line", "pithist", "igncontrib"], st.sampled_from([[1.0, 30.0], [0.5, 100.0], [0.25, 0.75]])),
+    "ylim": (["line", "bar", "pithist", "igncontrib"], st.sampled_from([[0.5, 5.0], [1.0, 20.0], [0.1, 3.5]])),
     "clim": (["map"], st.sampled_from([[0.0, 5.0], [1.0, 2.0]])),
-    "xticks": (["line"], st.sampled_from([[1.0, 12.0, 24.0], [6.0, 18.0]])),
-    "xticklabels": (["line"], st.sampled_from([["a", "b", "c"], ["first", "second"]])),
-    "yticks": (["line", "bar"], st.sampled_from([[0.5, 1.0, 2.0], [1.0, 4.0]])),
-    "yticklabels": (["line", "bar"], st.sampled_from([["lo", "mid", "hi"], ["p", "q"]])),
+    "xticks": (["line", "pithist", "igncontrib"], st.sampled_from([[1.0, 12.0, 24.0], [6.0, 18.0]])),
+    "xticklabels": (["line", "pithist", "igncontrib"], st.sampled_from([["a", "b", "c"], ["first", "second"]])),
+    "yticks": (["line", "bar", "pithist", "igncontrib"], st.sampled_from([[0.5, 1.0, 2.0], [1.0, 4.0]])),
+    "yticklabels": (["line", "bar", "pithist", "igncontrib"], st.sampled_from([["lo", "mid", "hi"], ["p", "q"]])),
     "xrot": (["line", "pithist", "igncontrib"], st.sampled_from([45.0, 90.0, 30.0])),
     "yrot": (["line", "pithist", "igncontrib"], st.sampled_from([45.0, 60.0])),
     "xlog": (["line"], st.just(True)),
@@ -63,7 +63,7 @@ OPTIONS = {
     "gw": (["line", "pithist", "igncontrib"], st.sampled_from([2.0, 0.5])),
     "nogrid": (["line", "pithist", "igncontrib", "bar"], st.just(True)),
     "sp": (["line"], st.just(True)),
-    "aspect": (["line"], st.sampled_from([2.0, 0.5])),
+    "aspect": (["line", "pithist"], st.sampled_from([2.0, 0.5])),
     "fs": (["line", "bar", "map", "pithist", "igncontrib"], st.sampled_from([[7, 5], [4, 9], [6.5, 4]])),
     "dpi": (["line", "bar", "map", "pithist", "igncontrib"], st.sampled_from([50, 80])),
     "left": (["line", "bar", "pithist", "igncontrib"], st.sampled_from([0.2, 0.3])),
@@ -314,8 +314,8 @@ def check_figure(case, ctx):
             if not ideal or any(y != 0 for y in ideal[0]["y"]):
                 fail(o, "no 'ideal' line at the perfect score 0 (lines %r)" % [ln["label"] for ln in main["lines"]])
         elif o == "aspect":
-            if main["aspect"] == "auto" or not cmpx.close(float(main["aspect"]), v):
-                fail(o, "aspect %r, expected %r" % (main["aspect"], v))
+            if any(a["aspect"] == "auto" or not cmpx.close(float(a["aspect"]), v) for a in axes):
+                fail(o, "aspect %r, expected %r on every axes" % ([a["aspect"] for a in axes], v))
         elif o == "fs":
             if not (cmpx.close(dump["size"][0], v[0]) and cmpx.close(dump["size"][1], v[1])):
                 fail(o, "figure size %r inches, expected %r" % (dump["size"], v))
